@@ -5,7 +5,7 @@ from .common import *   # noqa: F401,F403
 from . import linegen as lg
 
 KS = ["KLyric", "KSection", "KText"]
-LEAF = ['Leaf_timed', 'Leaf_dispatch', 'Leaf_tracks', 'Leaf_chart', 'Leaf_fromfile']      # translated functions this property's model relies on (Tie/<name>.v)
+LEAF = ['Leaf_timed', 'Leaf_dispatch', 'Leaf_tracks', 'Leaf_chart', 'Leaf_fromfile', 'Leaf_meta']      # translated functions this property's model relies on (Tie/<name>.v)
 RULE = ("(a) [Events] sections of 1-30 quoted-event lines in random order of kinds and ticks (ascending, pasted-block and descending tick orders), values over an alphabet of quotes, blanks, tabs, "
         "'=', brackets, braces, CJK and combining characters, the words lyric/section with and without the trailing blank, empty values, values ending in a quote plus blanks; parsed through "
         "Chart.from_file and judged: each line lands in exactly the expected one of the three lists, with its tick and verbatim value, in file order; "
